@@ -71,7 +71,9 @@ def strategy(tier):
         memtotal_kb=st.one_of(st.sampled_from([1, 4, 2**20, 2**34]), st.integers(1, 2**36)),
         oneshot=st.booleans(),   # all calls inside one `with p.oneshot():` block
         memtype=st.sampled_from(["rss", "vms", "shared", "text", "lib", "data",
-                                 "dirty", "uss", "pss", "swap", "bogus", "", "RSS", "size"]),
+                                 "dirty", "uss", "pss", "swap", "bogus", "", "RSS", "size",
+                                 # not fields, though attributes of every named tuple
+                                 "count", "index", "_fields", "_asdict", "__len__"]),
     ))
 
 
@@ -152,7 +154,8 @@ def run_case(case):
         except ValueError as e:
             out["percent"] = ("valueerror", e)
         except Exception as e:  # noqa: BLE001
-            raise Violation("memory_percent-exception", repr(e)) from None
+            raise Violation("memory_percent-exception",
+                            f"memory_percent({case['memtype']!r}) raised {e!r}") from None
 
     s = case["statm"]
     exp_info = dict(rss=s[1] * PAGE, vms=s[0] * PAGE, shared=s[2] * PAGE,
